@@ -89,6 +89,23 @@ def main():
                 fl = {"diff": mode == "diff", "print": mode == "print", "skip_imports": si}
                 scs.append(Scenario([("p.patch", WRAP_PATCH)], dict(WRAP_FILES), fl, args=args, name="overlap%d" % j))
                 meta.append(("overlap", "overlap%d" % j, "", si, mode))
+    # the same with files that fail next to files that are patched: what is printed / diffed for the good files must
+    # still be what is written in place for them
+    FAIL_FILES = dict(WRAP_FILES, **{"pkg/bad.go": BROKEN_GO, "pkg/sub/worse.go": b"package sub\n\nfunc W() { foo( }\n"})
+    for j, args in enumerate([["./..."], ["pkg", "c.go", "d.go"], ["pkg/bad.go", "pkg/a.go", "c.go"]]):
+        for mode in ("write", "print", "diff"):
+            fl = {"diff": mode == "diff", "print": mode == "print"}
+            scs.append(Scenario([("p.patch", WRAP_PATCH)], dict(FAIL_FILES), fl, args=args, name="overlapfail%d" % j))
+            meta.append(("overlap", "overlapfail%d" % j, "", False, mode))
+    # several changes in one patch, an earlier one failing: command line and library must agree that the file fails
+    MULTI_FAIL = [(b"@@\nvar x expression\n@@\n-foo()\n+foo(x)\n\n@@\n@@\n-bar()\n+baz()\n", b"package p\n\nfunc f() {\n\tfoo()\n\tbar()\n}\n"),
+                  (b"@@\nvar x expression\n@@\n-get(x)\n+obj.x\n\n@@\n@@\n-bar()\n+baz()\n", b"package p\n\nfunc f() {\n\t_ = get(h())\n\tbar()\n}\n"),
+                  (b"@@\n@@\n-bar()\n+baz()\n\n@@\nvar x expression\n@@\n-foo()\n+foo(x)\n", b"package p\n\nfunc f() {\n\tfoo()\n\tbar()\n}\n")]
+    for j, (pt, src) in enumerate(MULTI_FAIL):
+        for mode in ("write", "print", "diff"):
+            fl = {"diff": mode == "diff", "print": mode == "print"}
+            scs.append(Scenario([("p.patch", pt)], {"a.go": src}, fl, name="multifail%d" % j))
+            meta.append(("multifail", "multifail%d" % j, "a.go", False, mode))
     results = clicorr.run_scenarios(scs, api=True)
 
     agree = {}
@@ -109,6 +126,15 @@ def main():
             agree.setdefault((cname, fn, si), {})[mode] = r
         if kind == "overlap":
             overlap.setdefault((cname, si), {})[mode] = r
+        if kind == "multifail":
+            ff = r["facts"]["files"][0]
+            if ob["rc"] == 0:
+                ck.violation("a change matches and fails, yet the command line exits 0 (%s mode)" % mode, rep)
+            if clicorr.tree_changes(ob):
+                ck.violation("a change matches and fails, yet the file was modified (%s mode)" % mode, rep)
+            if not (ff.get("api_panic") or ff["api_err"]):
+                ck.violation("the command line reports a failure for this patch and file, the library API returns bytes and no error",
+                             dict(rep, api=unb64(ff["api_out"]).decode("utf-8", "replace") if ff.get("api_out") else None))
         if kind == "desc":
             want = b"a.go:Replace foo with bar.\na.go:Second line.\n"
             if mode == "write":
@@ -170,7 +196,8 @@ def main():
         written = {rel: v[1] for rel, v in w["obs"]["after"].items() if v[0] == "f"}
         orig = {rel: v[1] for rel, v in w["obs"]["before"].items() if v[0] == "f"}
         # print: concatenation, in path order, of the new (or unchanged) contents
-        exp_print = b"".join(written[os.path.relpath(ab, cwd_w)] for ab, _ in w["targets"])
+        failing = set(os.path.relpath(ab, cwd_w) for (ab, _), f_ in zip(w["targets"], w["facts"]["files"]) if f_["parse_err"])
+        exp_print = b"".join(written[os.path.relpath(ab, cwd_w)] for ab, _ in w["targets"] if os.path.relpath(ab, cwd_w) not in failing)
         if p["obs"]["stdout"] != exp_print:
             ck.violation("%s: --print-only output differs from the bytes written in place (files visited: %s)"
                          % (cname, [os.path.relpath(ab, cwd_w) for ab, _ in w["targets"]]),
